@@ -106,6 +106,27 @@ def search(res, tier, boost=False):
                                 res.violation('C04:negative-entry', dict(curve=cname, pw_exact=pw, test=describe(te), trial=describe(tr), value=float(v), scale=sc))
                             if ref > 1e-250 and not v > 0:
                                 res.violation('C04:entry-not-positive', dict(curve=cname, pw_exact=pw, test=describe(te), trial=describe(tr), value=float(v), reference=ref))
+        # small rectangular sub-lists (N*M < 100: the inline path) must be the table of single calls, rows = test
+        for _ in range(6 if tier == 'quick' else 30):
+            nt, nr = rng.randint(1, 9), rng.randint(1, 9)
+            if nt * nr >= 100 or len(elems) < 2:
+                continue
+            sub_t = [rng.choice(elems) for _ in range(nt)]
+            sub_r = [rng.choice(elems) for _ in range(nr)]
+            for pw in (False, True):
+                SL = ops.SL[pw]
+                with contextlib.redirect_stdout(io.StringIO()):
+                    m2 = SL.bilform_matrix(sub_t, sub_r)
+                for i, te in enumerate(sub_t):
+                    for j, tr in enumerate(sub_r):
+                        res.count(('submat', cname, mi, pw, nt, nr, i, j), True)
+                        acausal = te.time_interval[1] <= tr.time_interval[0]
+                        if acausal and m2[i, j] != 0:
+                            res.violation('C04:acausal-entry-nonzero:small-matrix', dict(curve=cname, pw_exact=pw, shape=[nt, nr], i=i, j=j,
+                                          test=describe(te), trial=describe(tr), value=float(m2[i, j])))
+                        elif m2[i, j] != SL.bilform(tr, te):
+                            res.violation('C04:matrix-not-rows-test-columns-trial:small-matrix', dict(curve=cname, pw_exact=pw, shape=[nt, nr],
+                                          i=i, j=j, test=describe(te), trial=describe(tr), entry=float(m2[i, j]), single=float(SL.bilform(tr, te))))
         # pointwise: zero for t <= start of the trial element (t equal included)
         SL = ops.SL[False]
         for tr in rng.sample(elems, min(6, len(elems))):
